@@ -252,7 +252,7 @@ func (w *world) planeOracle(res *result, tc *tcase, sigPath string, pre *census,
 		res.harness = err.Error()
 		return
 	}
-	sig := func(resource string) string { return "C16/" + tc.Kind + "/" + sigPath + "/" + resource }
+	sig := func(resource string) string { return "C16/" + tc.sigKind() + "/" + sigPath + "/" + resource }
 	reported := map[string]bool{}
 	for _, n := range sessionMaps {
 		extra, missing := diffKeys(pre.Maps[n], post.Maps[n])
@@ -337,13 +337,13 @@ func (w *world) planeHeld(res *result, pre *census) {
 func (w *world) unchanged(res *result, tc *tcase, sigPath string, a, b *census) {
 	for _, n := range sessionMaps {
 		if !equalStrings(a.Maps[n], b.Maps[n]) {
-			res.fail("C16/"+tc.Kind+"/"+sigPath+"/second-changes-"+mapResource[n], "the second termination changed kernel map %s: %v -> %v", n, a.Maps[n], b.Maps[n])
+			res.fail("C16/"+tc.sigKind()+"/"+sigPath+"/second-changes-"+mapResource[n], "the second termination changed kernel map %s: %v -> %v", n, a.Maps[n], b.Maps[n])
 		}
 	}
 	if a.NATCount != b.NATCount || fmt.Sprint(a.NATSubs) != fmt.Sprint(b.NATSubs) {
-		res.fail("C16/"+tc.Kind+"/"+sigPath+"/second-changes-nat", "the second termination changed NAT state: %d %v -> %d %v", a.NATCount, a.NATSubs, b.NATCount, b.NATSubs)
+		res.fail("C16/"+tc.sigKind()+"/"+sigPath+"/second-changes-nat", "the second termination changed NAT state: %d %v -> %d %v", a.NATCount, a.NATSubs, b.NATCount, b.NATSubs)
 	}
 	if a.QoSCount != b.QoSCount {
-		res.fail("C16/"+tc.Kind+"/"+sigPath+"/second-changes-qos", "the second termination changed the QoS subscriber count: %d -> %d", a.QoSCount, b.QoSCount)
+		res.fail("C16/"+tc.sigKind()+"/"+sigPath+"/second-changes-qos", "the second termination changed the QoS subscriber count: %d -> %d", a.QoSCount, b.QoSCount)
 	}
 }
